@@ -16,6 +16,7 @@ echo "== baseline suites with the patch"
 if [ -n "${DEMO:-}" ]; then
   echo "== demo ($DEMO in $DEMODIR): with the patch (must FAIL), without (must pass)"
   cp "$DEMO" $wt/$DEMODIR/zz_seed_demo_test.go
+  DEMORUN=${DEMORUN:-"^($(grep -oE '^func (Test[A-Za-z0-9_]+)' "$DEMO" | sed 's/func //' | paste -sd'|'))\$"}
   mod=$wt; case "$DEMODIR" in v2*) mod=$wt/v2;; esac
   rel=./${DEMODIR#v2}; rel=${rel%/}; [ "$rel" = "." ] && rel=./
   ( cd $mod && go test ${DEMORACE:+-race} -vet=off -count=1 -run "${DEMORUN:-Demo}" $rel 2>&1 | tail -3 | cut -c1-200 )
